@@ -11,7 +11,7 @@ import vlib
 PID = "C07"
 HARNESS_OWN = {"emit", "opaque", "depth_probe", "cancel_now", "intern", "host_str", "set_later", "set_extra", "get_extra",
                "call_native", "fails", "probe", "modvar", "tick_count", "type_matches", "True", "False", "None"}
-CATALOGUE = ["0", "1", "-1", "2147483647", "2147483648", "-2147483649", "9223372036854775808", "-18446744073709551616", "100000",
+CATALOGUE = ["0", "1", "-1", "2147483647", "2147483648", "-2147483648", "-2147483649", "9223372036854775807", "-9223372036854775808", "9223372036854775808", "-18446744073709551616", "100000",
              "0.0", "-0.0", "1.5", "float('inf')", "float('nan')", "None", "True", "False", '""', '"a"', '"%s"', '"{}"', '"\\U0001F600"',
              "[]", '[1, "a"]', "SELF", "{}", "{(1, 2): 3}", "()", "(1,)", "range(3)", "(lambda x: x)", "struct(a = 1)", "set([1])",
              "len", "int", "b'ab'" if False else '"x" * 70']
@@ -91,8 +91,13 @@ def run(tier):
         yield f"{expr}(**{{1: 2}})"
 
     small = cat[:12] + ["None", '""', "[]", "SELF", "{}", "(lambda x: x)"]
+    alias_args = ["r", "[r]", "(r,)", "{1: r}", "[(1, r)]", "[[r]]", "r, r", "[r], r", "k = r", "*[r]", "**{'k': r}", "lambda: r"]
     for name, expr in targets:
         cl = list(calls_for(expr))
+        if "." in name and expr.startswith("("):
+            # the receiver itself (or a container holding it) as argument of its own method
+            recv, meth = expr.rsplit(".", 1)
+            cl += [f"(lambda r: r.{meth}({a}))({recv})" for a in alias_args]
         if not q:
             # arity 3 over a reduced catalogue
             cl += [f"{expr}({a}, {b}, {c})" for a, b, c in itertools.product(small[::2], repeat=3)]
@@ -103,7 +108,7 @@ def run(tier):
             meta.append(("calls", name, chunk))
     # operators and syntax forms on all catalogue pairs (ill-typed programs)
     ops = ["+", "-", "*", "/", "//", "%", "&", "|", "^", "<<", ">>", "==", "<", "in", "and"]
-    big_safe = lambda a, b, op: not (op in ("*", "<<") and any(x in (a, b) for x in ("2147483647", "2147483648", "-2147483649", "9223372036854775808", "-18446744073709551616", "100000", "float('inf')")))
+    big_safe = lambda a, b, op: not (op in ("*", "<<") and any(x in (a, b) for x in ("2147483647", "2147483648", "-2147483648", "-2147483649", "9223372036854775807", "-9223372036854775808", "9223372036854775808", "-18446744073709551616", "100000", "float('inf')")))
     cl = [f"({a}) {op} ({b})" for a, b in itertools.product(cat, repeat=2) for op in ops if big_safe(a, b, op)]
     cl += [f"{u}({a})" for a in cat for u in ("-", "+", "~", "not ")]
     cl += [f"({a})[{b}]" for a, b in itertools.product(cat, repeat=2)]
